@@ -9,6 +9,8 @@ VARIABLE i
 Init == i \in 1 .. NW
 Next == i + NW <= Len(Recs) /\ i' = i + NW
 Fails(X) ==
+  (* the user's interrupt ends the count: it is not swallowed somewhere inside the package *)
+  (IF X.lost THEN {"interrupt_lost"} ELSE {}) \cup
   (IF X.report_ok THEN {} ELSE {"report_fails"}) \cup
   (IF X.dump_ok THEN {} ELSE {"dump_fails"}) \cup
   (IF X.json_ok THEN {} ELSE {"json_fails"}) \cup
